@@ -4,8 +4,8 @@ from vcore import hexs
 
 ID = "C03"
 LEVEL = "proof"
-_T = ["chacha_xor_ic_eq", "chacha_stream_eq", "chacha_offset_law", "ietf_guard_iff", "ietf_no_wrap", "salsa_ctr_inc",
-      "salsa_xor_ic_eq", "salsa_stream_eq", "chacha_xor_ic_length"]
+_T = ["chacha_xor_ic_eq", "chacha_stream_eq", "chacha_offset_law", "ietf_guard_iff", "ietf_no_wrap", "ietf_guard_prefix_needed", "salsa_ctr_inc",
+      "salsa_xor_ic_eq", "salsa_stream_eq", "chacha_xor_ic_length", "salsa_xor_ic_length"]
 THEOREMS = vcore.theorems_in("SodiumModel/Properties/C03.lean", _T, "Sodium.C03")
 IMPORTS = ["SodiumModel.Properties.C03"] if THEOREMS else ["SodiumModel.Model.Stream"]
 RULE = ("every length 0..2304 for the ChaCha20 and Salsa20 XOR forms, sampled/boundary lengths for the other functions; block counters 0, "
